@@ -196,8 +196,25 @@ def compute_mutators(trees: List[ast.Module]):
                 changed = True
 
 
+_CACHE: Dict[tuple, tuple] = {}
+
+
+def _invalidate():
+    _CACHE.clear()
+
+
 def mutated_names(node: ast.AST, calls: bool = True) -> Set[str]:
     """Base names assigned, updated, deleted or stored through anywhere inside `node`."""
+    key = ('mut', id(node), calls)
+    hit = _CACHE.get(key)
+    if hit is not None and hit[0] is node:
+        return hit[1]
+    r = _mutated_names(node, calls)
+    _CACHE[key] = (node, r)
+    return r
+
+
+def _mutated_names(node: ast.AST, calls: bool = True) -> Set[str]:
     out: Set[str] = set()
     for n in ast.walk(node):
         if isinstance(n, ast.Assign):
@@ -684,15 +701,39 @@ def _comp_binds(n: ast.AST, name: str) -> bool:
         isinstance(m, ast.Name) and m.id == name for g in n.generators for m in ast.walk(g.target))
 
 
+def _load_counts(node) -> Dict[str, int]:
+    """name -> number of loads in node; a comprehension that re-binds a name hides it (its first iterable is still
+    evaluated in the enclosing scope)."""
+    key = ('loads', id(node))
+    hit = _CACHE.get(key)
+    if hit is not None and hit[0] is node:
+        return hit[1]
+    out: Dict[str, int] = {}
+    if isinstance(node, ast.Name):
+        if isinstance(node.ctx, ast.Load):
+            out[node.id] = 1
+    elif isinstance(node, (ast.ListComp, ast.SetComp, ast.DictComp, ast.GeneratorExp)):
+        bound = {m.id for g in node.generators for m in ast.walk(g.target) if isinstance(m, ast.Name)}
+        first_iter = node.generators[0].iter
+        for ch in ast.iter_child_nodes(node):
+            for k, c in _load_counts(ch).items():
+                if k in bound:
+                    continue
+                out[k] = out.get(k, 0) + c
+        # the first iterable is evaluated outside the comprehension's scope
+        for k, c in _load_counts(first_iter).items():
+            if k in bound:
+                out[k] = out.get(k, 0) + c
+    else:
+        for ch in ast.iter_child_nodes(node):
+            for k, c in _load_counts(ch).items():
+                out[k] = out.get(k, 0) + c
+    _CACHE[key] = (node, out)
+    return out
+
+
 def _count_loads(node, name: str) -> int:
-    """Loads of the local `name` in node; a comprehension that re-binds the name hides it (its first iterable is
-    still evaluated in the enclosing scope)."""
-    if _comp_binds(node, name):
-        return _count_loads(node.generators[0].iter, name)
-    c = 1 if (isinstance(node, ast.Name) and node.id == name and isinstance(node.ctx, ast.Load)) else 0
-    for ch in ast.iter_child_nodes(node):
-        c += _count_loads(ch, name)
-    return c
+    return _load_counts(node).get(name, 0)
 
 
 def _count_loads_list(stmts, name):
@@ -734,6 +775,30 @@ def _plain_def(s: ast.stmt, v: str) -> bool:
 
 def _stores(node: ast.AST, v: str) -> bool:
     """Some statement inside `node` (re)binds the name v."""
+    key = ('stores', id(node))
+    hit = _CACHE.get(key)
+    if hit is None or hit[0] is not node:
+        hit = (node, _stored_names(node))
+        _CACHE[key] = hit
+    return v in hit[1]
+
+
+def _stored_names(node: ast.AST) -> Set[str]:
+    comp_targets = {id(m) for n in ast.walk(node)
+                    if isinstance(n, (ast.ListComp, ast.SetComp, ast.DictComp, ast.GeneratorExp))
+                    for g in n.generators for m in ast.walk(g.target)}
+    out: Set[str] = set()
+    for n in ast.walk(node):
+        if isinstance(n, ast.Name) and isinstance(n.ctx, (ast.Store, ast.Del)) and id(n) not in comp_targets:
+            out.add(n.id)
+        elif isinstance(n, ast.ExceptHandler) and n.name:
+            out.add(n.name)
+        elif isinstance(n, (ast.FunctionDef, ast.ClassDef)):
+            out.add(n.name)
+    return out
+
+
+def _stores_uncached(node: ast.AST, v: str) -> bool:
     comp_targets = {id(m) for n in ast.walk(node)
                     if isinstance(n, (ast.ListComp, ast.SetComp, ast.DictComp, ast.GeneratorExp))
                     for g in n.generators for m in ast.walk(g.target)}
@@ -840,6 +905,16 @@ def _is_import_try(s: ast.stmt) -> bool:
 
 def rebound_names(node: ast.AST) -> Set[str]:
     """Names that are re-bound (or resized through a method call) inside node - element stores do not count."""
+    key = ('rebound', id(node))
+    hit = _CACHE.get(key)
+    if hit is not None and hit[0] is node:
+        return hit[1]
+    r = _rebound_names(node)
+    _CACHE[key] = (node, r)
+    return r
+
+
+def _rebound_names(node: ast.AST) -> Set[str]:
     out: Set[str] = set()
     for n in ast.walk(node):
         tg = []
@@ -902,13 +977,16 @@ class _DefInliner:
         v = self.v
         if v in self.free:
             return False
-        for s_ in block[idx + 1:]:
-            for n in ast.walk(s_):
-                if isinstance(n, (ast.ListComp, ast.SetComp, ast.DictComp)) and _count_loads(n, v):
-                    tg = {m.id for g in n.generators for m in ast.walk(g.target) if isinstance(m, ast.Name)}
-                    if tg & self.free:
-                        return False
+        if not any(_count_loads(s_, v) for s_ in block[idx + 1:]):
+            return False
         ok, ended = self._scan(block[idx + 1:], False, False)
+        if ok:
+            for site in self.sites:
+                for n in ast.walk(site):
+                    if isinstance(n, (ast.ListComp, ast.SetComp, ast.DictComp)) and _count_loads(n, v):
+                        tg = {m.id for g in n.generators for m in ast.walk(g.target) if isinstance(m, ast.Name)}
+                        if tg & self.free:
+                            return False
         if not ok:
             return False
         if not ended and _exposed_seq(cont, v):
@@ -1077,8 +1155,13 @@ def _inline_temps(fn: ast.FunctionDef) -> bool:
         if isinstance(n, (ast.FunctionDef, ast.Lambda, ast.GeneratorExp)) and n is not fn:
             excluded |= {m.id for m in ast.walk(n) if isinstance(m, ast.Name)}
 
-    def attempt(block: List[ast.stmt], cont: List[List[ast.stmt]]) -> bool:
-        for k, s in enumerate(block):
+    changed = False
+
+    def attempt(block: List[ast.stmt], cont: List[List[ast.stmt]]):
+        nonlocal changed
+        k = 0
+        while k < len(block):
+            s = block[k]
             if isinstance(s, ast.Assign) and len(s.targets) == 1 and isinstance(s.targets[0], ast.Name) \
                     and s.targets[0].id not in excluded and not s.targets[0].id.startswith('N_'):
                 v = s.targets[0].id
@@ -1088,35 +1171,30 @@ def _inline_temps(fn: ast.FunctionDef) -> bool:
                     del block[k]
                     if not block:
                         block.append(_fix(ast.Pass(), s))
-                    return True
+                    _invalidate()
+                    changed = True
+                    continue          # the statement that moved up to position k is examined next
             if isinstance(s, (ast.FunctionDef, ast.ClassDef)):
+                k += 1
                 continue
             rest = block[k + 1:]
             if isinstance(s, (ast.While, ast.For)):
                 head = [_fix(ast.Expr(value=s.test), s)] if isinstance(s, ast.While) else \
                     [_fix(ast.Expr(value=s.iter), s)]
-                if attempt(s.body, [head, _LoopBody(s.body), s.orelse, rest] + cont):
-                    return True
-                if attempt(s.orelse, [rest] + cont):
-                    return True
+                attempt(s.body, [head, _LoopBody(s.body), s.orelse, rest] + cont)
+                attempt(s.orelse, [rest] + cont)
             elif isinstance(s, ast.Try):
-                # definitions inside try blocks: the handlers may observe partial effects - leave alone, but
-                # look into the branches with a conservative continuation (everything in the try statement)
                 everything = [s.body, s.orelse, s.finalbody] + [h.body for h in s.handlers]
-                for b in everything:
-                    if attempt(b, [x for x in everything if x is not b] + [rest] + cont):
-                        return True
+                for b_ in everything:
+                    attempt(b_, [x for x in everything if x is not b_] + [rest] + cont)
             else:
-                for b in _blocks_of(s):
-                    if attempt(b, [rest] + cont):
-                        return True
-        return False
+                for b_ in _blocks_of(s):
+                    attempt(b_, [rest] + cont)
+            k += 1
 
-    changed = False
-    for _ in range(400):
-        if not attempt(fn.body, []):
-            break
-        changed = True
+    _invalidate()
+    attempt(fn.body, [])
+    _invalidate()
     return changed
 
 
@@ -1183,6 +1261,7 @@ def _branch_motion(block: List[ast.stmt]) -> List[ast.stmt]:
                 post.insert(0, blocks[0][pos[0]])
                 for b, p in zip(blocks, pos):
                     del b[p]
+                _invalidate()
             out.append(st)
             out.extend(post)
             continue
@@ -1203,6 +1282,7 @@ def _branch_motion(block: List[ast.stmt]) -> List[ast.stmt]:
                 pre.append(st.body[pos[0]])
                 for b, p in zip(blocks, pos):
                     del b[p]
+                _invalidate()
             while st.body and st.orelse:
                 pos = _find_movable(blocks, True, set())
                 if pos is None:
@@ -1210,6 +1290,7 @@ def _branch_motion(block: List[ast.stmt]) -> List[ast.stmt]:
                 post.insert(0, st.body[pos[0]])
                 for b, p in zip(blocks, pos):
                     del b[p]
+                _invalidate()
             out.extend(pre)
             if st.body or st.orelse:
                 if not st.body:
@@ -1226,6 +1307,16 @@ def _branch_motion(block: List[ast.stmt]) -> List[ast.stmt]:
 # ----------------------------------------------------------------------------------------------
 
 def _rw(st: ast.stmt) -> Tuple[Set[str], Set[str], bool]:
+    key = ('rw', id(st))
+    hit = _CACHE.get(key)
+    if hit is not None and hit[0] is st:
+        return hit[1]
+    r = _rw_uncached(st)
+    _CACHE[key] = (st, r)
+    return r
+
+
+def _rw_uncached(st: ast.stmt) -> Tuple[Set[str], Set[str], bool]:
     writes = mutated_names(st)
     reads = {n.id for n in ast.walk(st) if isinstance(n, ast.Name)}
     # calls of unknown callables / library plotting or printing are kept in place
@@ -1288,6 +1379,7 @@ def _order_block(block: List[ast.stmt]):
             a, b = block[k], block[k + 1]
             if sortable(a) and sortable(b) and _stmt_key(b) < _stmt_key(a) and _commute(a, b):
                 block[k], block[k + 1] = b, a
+                _invalidate()
                 swapped = True
         if not swapped:
             break
@@ -1522,6 +1614,7 @@ def _while_to_for(fn: ast.FunctionDef) -> bool:
             block[k] = new
             del block[init]
             changed = True
+            _invalidate()
             return conv(block, cont)
     conv(fn.body, [])
     return changed
@@ -2079,18 +2172,24 @@ def normalize_function(fn: ast.FunctionDef, module_helpers: Dict[str, ast.Functi
     _accumulations(fn)
     prev = None
     for _round in range(4):
+        _invalidate()
         fn.body = _expand_ifexp(fn.body)
         fn.body = _orient(fn.body, False, True)
         for st in fn.body:
             _LenTests().visit(st)
+        _invalidate()
         _order_block(fn.body)
+        _invalidate()
         fn.body = _branch_motion(fn.body)
+        _invalidate()
         _while_to_for(fn)
+        _invalidate()
         for _ in range(8):
             ch = _inline_temps(fn)
             while _coalesce_copies(fn) or _coalesce_generated(fn):
                 ch = True
             ch = _forward_tuple_temps(fn) or ch
+            _invalidate()
             if not ch:
                 break
         _order_block(fn.body)
